@@ -187,6 +187,36 @@ pub fn sql_eq(a: &Val, b: &Val) -> bool {
         _ => false,
     }
 }
+/// SQL `!=` / `<>`: NULL on either side is not true; otherwise the negation of `=`
+pub fn sql_ne(a: &Val, b: &Val) -> bool {
+    match (a, b) {
+        (Val::Null, _) | (_, Val::Null) => false,
+        _ => !sql_eq(a, b),
+    }
+}
+/// a string literal of a statement as a TEXT value
+pub fn lit_text(s: &str) -> Val {
+    let b = s.as_bytes();
+    let mut t = [0u8; 36];
+    let mut i = 0;
+    while i < 36 {
+        if i < b.len() {
+            t[i] = b[i];
+        }
+        i += 1;
+    }
+    Val::Text(Text { len: b.len() as u8, b: t })
+}
+/// uncorrelated sub-selects see the database as it was when the statement started
+pub static mut STMT_SNAP: Db = EMPTY_DB;
+pub fn snap_stmt() {
+    unsafe {
+        STMT_SNAP = DB;
+    }
+}
+pub fn stmt_snap() -> &'static Db {
+    unsafe { &STMT_SNAP }
+}
 pub fn text_eq(x: &Text, y: &Text) -> bool {
     if x.len != y.len {
         return false;
@@ -827,6 +857,12 @@ impl<T> OptionalExtension<T> for Result<T> {
     }
 }
 
+pub enum DatabaseName<'a> {
+    Main,
+    Temp,
+    Attached(&'a str),
+}
+
 /// the connection object is one byte: per-connection state lives in the global `CONNS`
 pub struct Connection {
     id: u8,
@@ -912,6 +948,39 @@ impl Connection {
     }
     pub fn id(&self) -> usize {
         self.id as usize
+    }
+    /// `PRAGMA name = value` through the dedicated API
+    pub fn pragma_update<V: ToSql>(&self, _schema: Option<DatabaseName<'_>>, name: &str, value: V) -> Result<()> {
+        if tick() {
+            return Err(Error::Injected);
+        }
+        let v = to_val(value.to_sql()?);
+        let (is_off, is_mem) = match v {
+            Val::Int(i) => (i == 0, false),
+            Val::Text(t) => {
+                let b = &t.b[..t.len as usize];
+                (b.eq_ignore_ascii_case(b"off") || b == b"0", b.eq_ignore_ascii_case(b"memory") || b.eq_ignore_ascii_case(b"off"))
+            }
+            _ => (false, false),
+        };
+        if name.eq_ignore_ascii_case("synchronous") {
+            if is_off {
+                mon().unsafe_pragma = true;
+            }
+        } else if name.eq_ignore_ascii_case("journal_mode") {
+            mon().journal_mode_set = true;
+            if is_mem {
+                mon().unsafe_pragma = true;
+            }
+        } else if name.eq_ignore_ascii_case("locking_mode") || name.eq_ignore_ascii_case("writable_schema") || name.eq_ignore_ascii_case("read_uncommitted") {
+            mon().unsafe_pragma = true;
+        } else if !(name.eq_ignore_ascii_case("busy_timeout") || name.eq_ignore_ascii_case("cache_size") || name.eq_ignore_ascii_case("foreign_keys") || name.eq_ignore_ascii_case("temp_store") || name.eq_ignore_ascii_case("mmap_size") || name.eq_ignore_ascii_case("journal_size_limit") || name.eq_ignore_ascii_case("wal_autocheckpoint")) {
+            mon().unmodelled = true;
+        }
+        Ok(())
+    }
+    pub fn busy_timeout(&self, _d: std::time::Duration) -> Result<()> {
+        Ok(())
     }
 }
 impl Drop for Connection {
